@@ -116,7 +116,20 @@ func c08After(w *World, path []fsx.Op, r fsx.Reply, implFail bool, mis *reffs.Mi
 	}
 }
 
+// directories replacing directories: link counts of parents decide whether a removed parent's handle dies
+func c08DirAlphabet() []fsx.Op {
+	return []fsx.Op{
+		{K: "RENAME", H: "root/d", N: "e", H2: "root/d", N2: "f"}, // directory over an empty directory, same parent
+		{K: "RENAME", H: "root/d", N: "f", H2: "root/d", N2: "e"},
+		{K: "RENAME", H: "root", N: "g", H2: "root", N2: "d"}, // over a directory that may be non-empty (must fail) or empty
+		{K: "RMDIR", H: "root/d", N: "e"}, {K: "RMDIR", H: "root/d", N: "f"}, {K: "RMDIR", H: "root", N: "d"}, {K: "RMDIR", H: "root", N: "g"},
+		{K: "MKDIR", H: "root", N: "d"}, {K: "MKDIR", H: "root/d", N: "e"}, {K: "RESTART"},
+	}
+}
+
 func init() {
+	RegisterSeq("c08.dirs", &SeqSpec{Prop: "C08", DiskSize: 3000, Alphabet: c08DirAlphabet(), After: c08After, Strict: true,
+		Setup: []fsx.Op{{K: "MKDIR", H: "root", N: "d"}, {K: "MKDIR", H: "root/d", N: "e"}, {K: "MKDIR", H: "root/d", N: "f"}, {K: "MKDIR", H: "root", N: "g"}}})
 	Checks["C08"] = C08
 	RegisterSeq("c08.seq", &SeqSpec{Prop: "C08", DiskSize: 3000, Alphabet: c08Alphabet(), After: c08After, Strict: true})
 }
@@ -126,7 +139,8 @@ func C08(r *report.Report, tier string) {
 	if tier == "thorough" {
 		depth = 7
 	}
-	r.Rule = fmt.Sprintf("breadth-first search to depth %d over create/remove/rename-over/restart/crash-restart cycles (%d symbols; every restart resets the next-fit allocator so that inode numbers are reused at once); in every state every handle ever issued is used in every procedure and handle position (GETATTR, SETATTR, LOOKUP, ACCESS, READLINK, READ, WRITE, CREATE, MKDIR, SYMLINK, REMOVE, RMDIR, RENAME source dir / target dir / both, READDIR, READDIRPLUS, COMMIT, FSINFO, PATHCONF): a dead handle must answer STALE/BADHANDLE and change nothing, a live handle must denote the bound object; every new handle must differ from every handle ever issued", depth, len(c08Alphabet()))
+	r.Rule = fmt.Sprintf("breadth-first search to depth %d over create/remove/rename-over/restart/crash-restart cycles (%d symbols; every restart resets the next-fit allocator so that inode numbers are reused at once); in every state every handle ever issued is used in every procedure and handle position (GETATTR, SETATTR, LOOKUP, ACCESS, READLINK, READ, WRITE, CREATE, MKDIR, SYMLINK, REMOVE, RMDIR, RENAME source dir / target dir / both, READDIR, READDIRPLUS, COMMIT, FSINFO, PATHCONF): a dead handle must answer STALE/BADHANDLE and change nothing, a live handle must denote the bound object; every new handle must differ from every handle ever issued; a second search from a tree of nested empty directories over directory-over-directory renames and RMDIRs (parents' link counts)", depth, len(c08Alphabet()))
 	s1 := RunSeq(r, "c08.seq", depth)
-	r.Extra["searches"] = []*SeqSummary{s1}
+	s2 := RunSeq(r, "c08.dirs", depth-1)
+	r.Extra["searches"] = []*SeqSummary{s1, s2}
 }
